@@ -922,7 +922,7 @@ Theorem lex_free :
   forall (E : env) (q : query) (t : ustr) (ts : list token),
     tokens_ok E = true -> spells_as E q t ts -> tokenize E t = ts.
 Proof.
-  intros E q t ts HT [items [wf [_ [Hc [-> ->]]]]]. apply lex_chain; assumption.
+  intros E q t ts HT [qs [ts0 [items [wf [_ [_ [_ [Hc [-> ->]]]]]]]]]. apply lex_chain; assumption.
 Qed.
 
 (* ---------------------------------------------------------------------- *)
@@ -956,59 +956,3 @@ Proof.
   - apply norm_equiv.
 Qed.
 
-(* ---------------------------------------------------------------------- *)
-(* an instance: shorthand, double quotes, blanks, a slice with blanks around its colons *)
-
-Definition example_query : query :=
-  mkQuery (mkPath false
-    (PCons (GSel (SName [97%N]))
-    (PCons (GList (LCons (SName [98%N]) (LCons (SIndex 1%Z) LNil)))
-    (PCons GDescent
-    (PCons (GList (LCons (SName [99%N]) LNil))
-    (PCons (GSel (SSlice (Some 1%Z) (Some 2%Z) None)) PNil)))))) [].
-
-(* "$ .a [ "b" , 1 ] ..c[ 1 : 2 :1]" *)
-Definition example_items : list item :=
-  [([], X TRoot [36%N]); ([32%N], XProp [97%N]); ([32%N], X TLBracket [91%N]);
-   ([32%N], XStr true [98%N]); ([32%N], X TComma [44%N]); ([32%N], X TInt [49%N]);
-   ([32%N], X TRBracket [93%N]); ([32%N], X TDDot [46; 46]%N); ([], XBare [99%N]);
-   ([], X TLBracket [91%N]); ([32%N], XSlice [49%N] [32%N] [32%N] [50%N] [32%N] [] [49%N]);
-   ([], X TRBracket [93%N])].
-
-
-Local Ltac lok :=
-  cbn; first [ reflexivity | left; tauto | right; left; tauto
-             | right; right; left; split; [reflexivity|first [exists 1%Z; reflexivity | exists 2%Z; reflexivity]]
-             | repeat split; try reflexivity; try (right; first [exists 1%Z; reflexivity | exists 2%Z; reflexivity]); try (first [exists 1%Z; reflexivity | exists 2%Z; reflexivity]); try discriminate ].
-
-Example example_spelled :
-  spells_as default_env example_query (render example_items [10%N]) (chain_toks example_items).
-Proof.
-  exists example_items, [10%N]. split; [|split; [|split; reflexivity]].
-  - cbn [map snd example_items]. eexists; eexists. split; [|split; [reflexivity|]].
-    + eexists. split; [|reflexivity].
-      cbn [p_segs example_query q_first].
-      apply (fp_cons _ false _ _ [XProp [97%N]]); [apply fg_prop; reflexivity|].
-      apply (fp_cons _ false _ _ (brx (sep_by [xcomma] [[XStr true [98%N]]; [X TInt [49%N]]]))).
-      { apply fg_list. repeat constructor; try (split; reflexivity). }
-      apply (fp_cons _ false _ _ [X TDDot [46; 46]%N]); [apply fg_descent|].
-      apply (fp_cons _ true _ _ [XBare [99%N]]); [apply fg_bare; reflexivity|].
-      apply (fp_cons _ false _ _ (brx [XSlice [49%N] [32%N] [32%N] [50%N] [32%N] [] [49%N]])).
-      { apply fg_sel_bracket; [reflexivity|]. apply (fl_slice _ (Some 1%Z) (Some 2%Z) None). }
-      apply fp_nil.
-    + reflexivity.
-  - cbn [chain_ok example_items]. repeat match goal with |- _ /\ _ => split end; try reflexivity; lok.
-Qed.
-
-
-Example example_lexed :
-  tokenize default_env (render example_items [10%N]) = chain_toks example_items.
-Proof.
-  apply (lex_free default_env example_query); [reflexivity|exact example_spelled].
-Qed.
-
-(* the model parser on that spelling: the same query up to the normal form *)
-Example example_compiled :
-  exists q', compile default_env (fun _ => Some true) (render example_items [10%N]) = Ok q' /\
-             norm_query q' = norm_query example_query.
-Proof. eexists. split; [vm_compute; reflexivity|vm_compute; reflexivity]. Qed.
